@@ -12,7 +12,7 @@ BACKENDS = ()
 CHUNK = 4
 KW = dict(step_size=0.125, verbose=False, float_precision='float64', backend='default')
 
-SEEDS = ['flat', 'hier']
+SEEDS = ['flat', 'hier', 'hier_same']
 
 
 def build_seed(seed):
@@ -29,6 +29,12 @@ def build_seed(seed):
                             edges=[('a/so/x', 'b/to/u', None, {'weight': 2.0}), ('dd/so/x', 'a/to/u', None, {'weight': 0.5})])
         nodes = {'a': base, 'b': base, 'cc': base, 'dd': ov2}
         edges = {('a/so/x', 'b/to/u'): 2.0, ('dd/so/x', 'a/to/u'): 0.5}
+    elif seed == 'hier_same':
+        # the SAME CircuitTemplate object is used for both sub-circuits
+        sub = CircuitTemplate('s', nodes={'a': N, 'dd': N2}, edges=[('a/so/x', 'dd/to/u', None, {'weight': 2.0})])
+        c = CircuitTemplate('hs', circuits={'c1': sub, 'c2': sub}, edges=[('c2/dd/so/x', 'c1/a/to/u', None, {'weight': 0.5})])
+        nodes = {'c1/a': base, 'c1/dd': ov2, 'c2/a': base, 'c2/dd': ov2}
+        edges = {('c1/a/so/x', 'c1/dd/to/u'): 2.0, ('c2/a/so/x', 'c2/dd/to/u'): 2.0, ('c2/dd/so/x', 'c1/a/to/u'): 0.5}
     else:
         sub1 = CircuitTemplate('s1', nodes={'a': N, 'b': N}, edges=[('a/so/x', 'b/to/u', None, {'weight': 2.0})])
         sub2 = CircuitTemplate('s2', nodes={'a': N, 'dd': N2})
@@ -41,6 +47,10 @@ def build_seed(seed):
 
 
 def alphabet(seed):
+    if seed == 'hier_same':
+        return [['upd', 'c1/a/so/k', 3.0], ['upd', 'c2/dd/so/x', 0.35], ['upd', 'all/a/so/k', 6.0], ['upd', 'c1/all/so/c', 0.7],
+                ['upd_arr', 'all/all/so/k', [1.1, 2.2, 3.3, 4.4]], ['upd', 'c2/a/to/u', 0.8],
+                ['upd_edge', ['c2/dd/so/x', 'c1/a/to/u'], -1.25], ['apply_nv', 'c1/a/so/k', 9.0]]
     if seed == 'flat':
         A, B, D, ALL = 'a', 'b', 'dd', 'all'
         e1 = ('a/so/x', 'b/to/u')
@@ -51,7 +61,8 @@ def alphabet(seed):
            ['upd', f'{ALL}/so/k', 6.0], ['upd', f'{A}/to/u', 0.8], ['upd', f'{D}/to/v', 0.45],
            ['upd_arr', f'{ALL}/so/k', [1.1, 2.2, 3.3, 4.4]], ['upd_arr', f'{ALL}/so/x', [0.11, 0.22, 0.33, 0.44]]]
     if seed == 'flat':
-        ops += [['upd_edge', list(e1), 7.0], ['upd_edge', ['dd/so/x', 'a/to/u'], -1.25]]
+        ops += [['upd_edge', list(e1), 7.0], ['upd_edge', ['dd/so/x', 'a/to/u'], -1.25],
+                ['add_matrix'], ['upd_edge', ['dd/so/x', 'cc/to/u'], 4.5]]
     else:
         ops += [['upd_edge', ['c2/dd/so/x', 'c1/a/to/u'], -1.25], ['upd', 'c1/all/so/c', 0.7]]
     ops += [['apply_nv', f'{A}/so/k', 9.0], ['apply_nv', f'{D}/so/x', 0.77]]
@@ -145,8 +156,24 @@ def run_case(case):
                 for n, v in zip(tn, arr):
                     ref[f'{n}/{key}'] = float(v)
             elif kind == 'upd_edge':
+                if tuple(op[1]) not in edges:
+                    res['rejected'] = True      # the addressed edge does not exist (yet) in this history
+                    res['ok'] = True
+                    res['outcome'] = 'edge_not_present'
+                    return res
                 c.update_var(edge_vars=[(op[1][0], op[1][1], {'weight': op[2]})])
                 edges[tuple(op[1])] = op[2]
+            elif kind == 'add_matrix':
+                if ('dd/so/x', 'cc/to/u') in edges:
+                    res['rejected'] = True
+                    res['ok'] = True
+                    res['outcome'] = 'matrix_twice'
+                    return res
+                c.add_edges_from_matrix('so/x', 'to/u', source_nodes=['cc', 'dd'], target_nodes=['cc'],
+                                        weight=np.array([[1.25, 0.75]]))
+                edges[('cc/so/x', 'cc/to/u')] = 1.25
+                edges[('dd/so/x', 'cc/to/u')] = 0.75
+                sig['features'] = sorted(set(sig['features']) | {'edges_added_in_place'})
             elif kind == 'apply_nv':
                 # compile-time override: visible in that compilation only
                 sig['features'] = sorted(set(sig['features']) | {'apply_node_values'})
@@ -183,6 +210,25 @@ def run_case(case):
         g = float(dy[C.position(f'{n}/to/v')[0]])
         if abs(g - exp) > 1e-10:
             return viol('input_or_weight_wrong', node=n, got=g, expected=exp, history=case['history'])
+    # the same template object compiled in place, an initial value updated, compiled in place again
+    if not any(o[0] == 'apply_nv' for o in case['history']):
+        from .. import impl
+        try:
+            C1 = impl.compile_field(c, {'vectorize': case['vectorize']})
+            n0 = nodes[0]
+            c.update_var(node_vars={f'{n0}/so/x': 0.515})
+            ref[f'{n0}/so/x'] = 0.515
+            C2 = impl.compile_field(c, {'vectorize': case['vectorize']})
+            y0 = C2.y0()
+            bad = {f'{n}/so/x': (float(y0[C2.position(f'{n}/so/x')[0]]), ref[f'{n}/so/x']) for n in nodes
+                   if abs(float(y0[C2.position(f'{n}/so/x')[0]]) - ref[f'{n}/so/x']) > 1e-12}
+        except Exception as e:
+            sig['exc'] = type(e).__name__
+            sig['features'] = sorted(set(sig['features']) | {'recompiled_in_place'})
+            return viol('raises', step='recompile_in_place', detail=f'{type(e).__name__}: {e}'[:200])
+        if bad:
+            sig['features'] = sorted(set(sig['features']) | {'recompiled_in_place'})
+            return viol('initial_value_stale_after_recompile', wrong=bad)
     res['outcome'] = hashlib.sha256(json.dumps(sorted(ref.items())).encode()).hexdigest()[:10]
     res['ok'] = True
     return res
